@@ -62,7 +62,8 @@ func c12Pairs(c *Ctx) []layout.RTPair {
 			// the optional header has its own pair: here one representative valuation of it is enough
 			WriterPreds: map[string]bool{"$h/OptionalHeader.HasESCR": false, "$h/OptionalHeader.HasESRate": true, "$h/OptionalHeader.HasDSMTrickMode": false,
 				"$h/OptionalHeader.HasAdditionalCopyInfo": false, "$h/OptionalHeader.HasExtension": false},
-			WriterEq:        map[string]int64{"$h/OptionalHeader.PTSDTSIndicator": 2},
+			WriterEq:      map[string]int64{"$h/OptionalHeader.PTSDTSIndicator": 2},
+			SourceRuleKey: "PES_packet_length-rule", SourceRule: pesPacketLengthRule,
 			SkipParamConds:  map[string]bool{"nil:$h/OptionalHeader": true},
 			SkipWhy:         "PESHeader.OptionalHeader is not nil (a nil optional header is only meaningful for stream ids that have none; the muxer does not check it)",
 			ElsewherePrefix: "OptionalHeader.", ElsewhereWhy: "decided for every valuation in pair pes-optional-header",
@@ -109,6 +110,8 @@ func c12(c *Ctx) {
 	r.Trusted = []string{"go/types + go/ssa (x/tools v0.29.0)", "astikit BitsWriter (Write emits the operand's bits MSB first, WriteN the low n bits, WriteBytesN exactly n bytes) and BytesIterator summaries", "package bitdom (unit-tested against concrete evaluation)"}
 	ck := layout.NewBits(c.P)
 	ck.A3(r, c12Pairs(c))
+	// A4: the parsers against reference encodings transcribed from the standard (independent of the writer)
+	ck.A3(r, c12SpecPairs(c))
 	var fs []*ssa.Function
 	for _, n := range []string{"parsePESHeader", "parsePESOptionalHeader", "parseDSMTrickMode", "parsePTSOrDTS", "parseESCR",
 		"writePESOptionalHeader", "writeDSMTrickMode", "writePTSOrDTS", "writeESCR"} {
@@ -121,4 +124,48 @@ func c12(c *Ctx) {
 	lk := layout.New(c.P)
 	lk.A2(r, packetPairs(c)[2:])
 	r.Floor("A3", "structure fields compared", countPrefix(r, "A3/", "/field/"), 60)
+}
+
+// pesPacketLengthRule: the 16 bits emitted as PES_packet_length are the number of bytes that follow them (the rest of
+// the header plus the payload) when that number fits 16 bits, and 0 exactly when it does not or the stream is a
+// video stream (ISO 13818-1 2.4.3.7: 0 is only allowed for video elementary streams; the library also uses it for
+// lengths above 65535).
+func pesPacketLengthRule(c *layout.Checker, src *layout.Source) string {
+	var v *lin.Form
+	for _, ch := range src.Chunks {
+		if ch.Kind == layout.CBits && ch.W == 16 && ch.PosOK && ch.Pos.IsConst() && ch.Pos.C == 32 && ch.Lin != nil {
+			f := *ch.Lin
+			v = &f
+		}
+	}
+	if v == nil || !src.TotalOK || !layout.Div8(src.Total) {
+		return "the emitted PES_packet_length could not be located"
+	}
+	st := src.St
+	own := c.OwnState(src)
+	l := layout.ScaleDown8(src.Total).AddC(-6).Add(lin.Sym("$payloadSize"))
+	eq := func(a, b lin.Form) bool {
+		d := c.IP.SimplifyForm(a.Sub(b), st)
+		return (d.IsConst() && d.C == 0) || (st.ProveSimplified(d) && st.ProveSimplified(d.Scale(-1)))
+	}
+	id := lin.Sym("$h.StreamID")
+	video := eq(id, lin.Const(0xe0)) || eq(id, lin.Const(0xfd))
+	switch {
+	case video:
+		if eq(*v, lin.Const(0)) {
+			return ""
+		}
+		return "video stream: PES_packet_length is " + v.String() + ", expected 0"
+	case eq(*v, l):
+		if own.ProveSimplified(lin.Const(0xffff).Sub(l)) {
+			return ""
+		}
+		return "the emitted length " + l.String() + " is not known to fit 16 bits on this path"
+	case eq(*v, lin.Const(0)):
+		if own.ProveSimplified(l.AddC(-0x10000)) {
+			return ""
+		}
+		return "PES_packet_length 0 is emitted although the length " + l.String() + " is not known to exceed 65535 on this path"
+	}
+	return "PES_packet_length is " + v.String() + ", neither the number of bytes that follow (" + l.String() + ") nor 0"
 }
